@@ -6,7 +6,7 @@ from props.common import expert_case, expert_classes, std_classes, PRECS
 ID = "C11"
 LEVEL = "exploration"
 RULE = ("cases = (a) direct calls of ?gsequ then ?laqgs on m x n matrices (rectangular too, 1x1, entries 2^k over the whole exponent range "
-        "k in ±1000 double / ±120 single, rows/columns scaled by powers and non-powers of two, exactly zero rows/columns stored or empty) "
+        "k in ±1000 double / ±120 single, rows/columns scaled by powers and non-powers of two, exactly zero rows/columns stored or empty, rows/columns whose largest entry is subnormal) "
         "in four precisions; (b) the expert driver with fact=EQUILIBRATE on badly row-/column-/both-scaled matrices x NC/NR x trans; "
         "oracle = independent long-double re-implementation of the documented rule: R_i = 1/clip(max_j|a_ij|), C_j = 1/clip(max_i R_i|a_ij|) "
         "within 3/8 ulp, finite and positive, row maxima of R*A and column maxima of R*A*C equal 1 within rounding unless clipped, rowcnd/"
@@ -27,7 +27,7 @@ def direct_case(draw, nmax=24):
     seed = draw(st.integers(0, 2 ** 32 - 1)); rng = np.random.default_rng(seed)
     dens = draw(st.sampled_from([0.15, 0.4, 0.9]))
     emax = draw(st.sampled_from([2, 10, 40, 120] if single else [2, 10, 60, 300, 1000]))
-    mode = draw(st.sampled_from(["plain", "rowscaled", "colscaled", "both", "zerorow", "zerocol", "emptyrow", "emptycol"]))
+    mode = draw(st.sampled_from(["plain", "rowscaled", "colscaled", "both", "zerorow", "zerocol", "emptyrow", "emptycol", "tinyrow", "tinycol"]))
     rexp = rng.integers(-emax // 2, emax // 2 + 1, m) if mode in ("rowscaled", "both") else np.zeros(m, int)
     cexp = rng.integers(-emax // 2, emax // 2 + 1, n) if mode in ("colscaled", "both") else np.zeros(n, int)
     base = draw(st.sampled_from([1, 1, emax // 3]))
@@ -47,6 +47,10 @@ def direct_case(draw, nmax=24):
     k = int(rng.integers(m)) if mode.endswith("row") else int(rng.integers(n))
     if mode == "zerorow": ent = [(i, j, 0.0 if i == k else a, 0.0 if i == k else b) for (i, j, a, b) in ent]
     if mode == "zerocol": ent = [(i, j, 0.0 if j == k else a, 0.0 if j == k else b) for (i, j, a, b) in ent]
+    # a row / column whose largest entry is subnormal but not zero (below the clipping threshold, not a "zero row")
+    tiny = 2.0 ** (-(lim + (15 if single else 30)))
+    if mode == "tinyrow": ent = [(i, j, (tiny if a >= 0 else -tiny) if i == k else a, 0.0 if i == k else b) for (i, j, a, b) in ent]
+    if mode == "tinycol": ent = [(i, j, (tiny if a >= 0 else -tiny) if j == k else a, 0.0 if j == k else b) for (i, j, a, b) in ent]
     if mode == "emptyrow": ent = [e for e in ent if e[0] != k]
     if mode == "emptycol": ent = [e for e in ent if e[1] != k]
     if not ent: ent = [(0, 0, 1.0, 0.0)]
